@@ -166,3 +166,6 @@ func RunReal(d *Decls, spec string, argv []string) Outcome {
 	})
 	return out
 }
+
+func setenv(k, v string) { os.Setenv(k, v) }
+func unsetenv(k string)  { os.Unsetenv(k) }
